@@ -80,6 +80,12 @@ fn do_cmp(ctx: &mut Ctx, a: &GameVersion, b: &GameVersion) {
             if (o == Ordering::Equal) != e {
                 ctx.violation("c16/order/eq-consistency", "cmp == Equal disagrees with ==", &op, &format!("{}", e), ord_tok(o));
             }
+            // the comparison operators are the same order: partial_cmp, <, <=, >, >= all agree with cmp
+            let pc = a.partial_cmp(b);
+            let ops_ok = (a < b) == (o == Ordering::Less) && (a <= b) == (o != Ordering::Greater) && (a > b) == (o == Ordering::Greater) && (a >= b) == (o != Ordering::Less);
+            if pc != Some(o) || !ops_ok {
+                ctx.violation("c16/order/operators", "partial_cmp or a comparison operator disagrees with cmp", &op, ord_tok(o), &format!("partial_cmp {:?}; < {} <= {} > {} >= {}", pc, a < b, a <= b, a > b, a >= b));
+            }
             let rev = b.cmp(a);
             if rev != o.reverse() {
                 ctx.violation("c16/order/antisymmetry", "cmp(a,b) is not the reverse of cmp(b,a)", &op, ord_tok(o.reverse()), ord_tok(rev));
